@@ -631,6 +631,7 @@ func (c *Collection) writeWithXattrs(
 			}
 		}
 		e.xattrs, _ = json.Marshal(xattrs)
+		e.isDeletion = (e.value == nil) // a document without a body is a tombstone, whichever write produced it
 
 		if err = checkDocSize(len(e.value) + len(e.xattrs)); err != nil {
 			return nil, err
